@@ -250,11 +250,11 @@ func mkSucc[T any](rec *succRec) *compose.Lambda {
 }
 
 var (
-	wfFrom = map[reflect.Type]func() *wfHandle{}                   // Workflow[S, string]
-	wfTo   = map[reflect.Type]func() *wfHandle{}                   // Workflow[string, T]
-	wfPair = map[[2]reflect.Type]func() *wfHandle{}                // Workflow[S, T]
-	predOf = map[reflect.Type]func(p *predNode) *compose.Lambda{}  // any -> S
-	succOf = map[reflect.Type]func(r *succRec) *compose.Lambda{}   // T -> string
+	wfFrom = map[reflect.Type]func() *wfHandle{}                  // Workflow[S, string]
+	wfTo   = map[reflect.Type]func() *wfHandle{}                  // Workflow[string, T]
+	wfPair = map[[2]reflect.Type]func() *wfHandle{}               // Workflow[S, T]
+	predOf = map[reflect.Type]func(p *predNode) *compose.Lambda{} // any -> S
+	succOf = map[reflect.Type]func(r *succRec) *compose.Lambda{}  // T -> string
 )
 
 func rt[T any]() reflect.Type { return reflect.TypeOf((*T)(nil)).Elem() }
